@@ -145,7 +145,10 @@ def main():
                         rd = rnd.random() > 0.12
                         qname = randcase(rnd, nm) if rnd.random() < 0.6 else nm
                         marks = [len(u.events) for u in ups]
-                        q = dnslib.build_query(counter[0] & 0xFFFF, qname, edns=1232, rd=rd)
+                        # the route depends on the NAME only: every query type goes the same way (DS, NS, SOA, ANY-like and unknown
+                        # types included)
+                        qtype = rnd.choice([1, 1, 1, 28, 2, 6, 15, 16, 33, 43, 48, 65, 257, 65280])
+                        q = dnslib.build_query(counter[0] & 0xFFFF, qname, qtype=qtype, edns=1232, rd=rd)
                         # TCP: rcodes matter here and REFUSED over UDP is rate limited by design
                         r, err = dnslib.tcp_query(("127.0.0.53", 53), q, timeout=8.0)
                         time.sleep(0.002)
@@ -158,7 +161,7 @@ def main():
                         leg.eval()
                         depth = -1 if want is None else max(len(labels(s)) for s in want["suffixes"] if len(labels(s)) <= len(labels(qname)) and (not labels(s) or labels(qname)[-len(labels(s)):] == labels(s)))
                         mixed = qname != qname.lower()
-                        replay = {"engine": "c15-e2e", "config": conf, "qname": qname, "rd": rd, "table": routes}
+                        replay = {"engine": "c15-e2e", "config": conf, "qname": qname, "qtype": qtype, "rd": rd, "table": routes}
                         if r is None:
                             leg.violation("C15/no-response", "%s: %s" % (qname, err), replay)
                             outcomes.append(("none",))
@@ -185,8 +188,8 @@ def main():
                             if mixed or perm > 0:
                                 case_only = True
                             sig = "C15/%s-expected/%s" % (exp, "case-or-order-sensitive" if case_only else "wrong-route")
-                            leg.violation(sig, "query %s (RD=%s): expected %s via %s, got rcode %d, upstreams that saw it: %s" % (
-                                qname, rd, exp, want and want.get("upstream"), rc, saw), replay)
+                            leg.violation(sig, "query %s type %d (RD=%s): expected %s via %s, got rcode %d, upstreams that saw it: %s" % (
+                                qname, qtype, rd, exp, want and want.get("upstream"), rc, saw), replay)
                     outcomes_by_perm.append(outcomes)
                     for line in p.panics():
                         leg.violation("C15/handler-panic/%s" % base.panic_signature(line), line.strip(), {"engine": "c15-e2e", "config": conf})
